@@ -149,7 +149,7 @@ impl Pager {
         requires
             [C09,C11:dealloc.writes_free_format_image] frame.free_fmt(),
             [C09,C11:dealloc.writes_at_own_page_id] id == frame.id(),
-            [C09,C12:dealloc.writes_whole_page] size == old(self).psize,
+            [C09,C12,C11:dealloc.writes_whole_page] size == old(self).psize,
         ensures
             final(self).first == old(self).first, final(self).last == old(self).last, final(self).total == old(self).total, final(self).nextm == old(self).nextm, final(self).cache == old(self).cache, final(self).psize == old(self).psize,
             r is Ok ==> final(self).written@ == old(self).written@.insert(*frame),
@@ -158,7 +158,7 @@ impl Pager {
     #[verifier::external_body]
     pub fn cache_frame(&mut self, frame: MemFrame) -> (r: io::Result<PageId>)
         requires
-            [C09,C12:alloc_dealloc.cached_frame_dirty_or_written] frame.dirty() || old(self).written@.contains(frame),
+            [C09,C12,C11:alloc_dealloc.cached_frame_dirty_or_written] frame.dirty() || old(self).written@.contains(frame),
         ensures
             final(self).first == old(self).first, final(self).last == old(self).last, final(self).total == old(self).total, final(self).psize == old(self).psize,
             r is Ok ==> final(self).cached().contains(frame),
@@ -191,7 +191,7 @@ impl Pager {
 //@   [C09,C11:dealloc.appends_to_free_list] forall|s: Seq<u64>| #![trigger old(self).is_free_list(s)] old(self).is_free_list(s) && !s.contains(id) && r is Ok ==> final(self).is_free_list(s.push(id)),
 //@   [C09,C11:dealloc.page_zero_refused] id == 0 ==> r is Err,
 //@   [C09,C11:dealloc.keeps_page_count] final(self).total_pages() == old(self).total_pages(),
-//@   [C09,C12:dealloc.freed_image_cached] r is Ok ==> (exists|f: MemFrame| final(self).cached().contains(f) && f.id() == id && f.free_fmt()),
+//@   [C09,C12,C11:dealloc.freed_image_cached] r is Ok ==> (exists|f: MemFrame| final(self).cached().contains(f) && f.id() == id && f.free_fmt()),
 //@end
 }
 
